@@ -192,6 +192,59 @@ let c20 s b =
       let ok = jit_trace_ok 0 tp given.(0) && (panic || ji_panic || jit_trace_ok 1 ti given.(1)) in
       if not ok then Printf.bprintf b " | jt bad"
 
+(* ---- C15: bytecode ------------------------------------------------------------ *)
+let imm_bits (f : f32) : z = to_bits f
+let imm_of_bits (x : z) : f32 = of_bits x
+
+let c15 s b =
+  let n = next_nat s in
+  let arena = parse_arena s in
+  let nroots = next s in
+  let roots = times nroots (fun () -> next_nat s) in
+  let nvars = next s in
+  let npts = next s in
+  let pts = times npts (fun () ->
+    let skip = next s = 1 in
+    let vals = Array.of_list (times nvars (fun () -> next_f32 s)) in (skip, vals)) in
+  let orc = libm_oracle in
+  match flatten arena roots with
+  | Err _ -> Printf.bprintf b "build err"
+  | Ok (t, vars) ->
+    match reg_tape_new n t.t_ops with
+    | Err _ -> Printf.bprintf b "build err"
+    | Ok (rt, slots) ->
+      match bytecode_new imm_bits n rt with
+      | Err c -> Printf.bprintf b (if int_of_nat c = 61 then "bc reserved" else "bc err")
+      | Ok ((words, regs), mems) ->
+        Printf.bprintf b "reg %d " (int_of_nat slots); buf_tape b rt;
+        Printf.bprintf b " | bc %d %d %d" (int_of_nat regs) (int_of_z mems) (List.length words);
+        List.iter (fun w -> Printf.bprintf b " %d" (int_of_z w)) words;
+        Printf.bprintf b " | pt";
+        (* the documentation-only decoder + the generic evaluator *)
+        (match decode imm_of_bits words with
+         | None -> Printf.bprintf b " undecodable"
+         | Some ops ->
+           List.iter (fun (skip, vals) ->
+             if skip then Printf.bprintf b " x" else begin
+               let inputs = List.map (fun v -> vals.(int_of_nat v)) vars in
+               let sem = f32_sem orc in
+               let st = run_fwd sem inputs ops (init_state (fun _ -> fnan) (List.map (fun _ -> fnan) roots)) in
+               buf_bits b st.m_out
+             end) pts)
+
+(* verified equivalence of the implementation's bytecode (decoded per the docs) and its register tape *)
+let cmd_bcval s b =
+  let reg = parse_tape s in
+  let regs = next_nat s in let mems = next_nat s in
+  let nw = next s in
+  let words = times nw (fun () -> z_of_int (next s)) in
+  match decode imm_of_bits words with
+  | None -> Printf.bprintf b "bcval undecodable"
+  | Some ops ->
+    let eq = check_equiv f32_eqb (List.rev reg) ops in
+    let bounds = List.for_all (fun o -> op_in_bounds regs mems o) ops in
+    Printf.bprintf b "bcval %d bounds %d" (if eq then 1 else 0) (if bounds then 1 else 0)
+
 (* Stage-A validator for a simplification: parent tape, trace (evaluation order), child tape *)
 let cmd_sval s b =
   let parent = parse_tape s in
@@ -204,6 +257,8 @@ let cmd_sval s b =
 let dispatch cmd s b =
   match cmd with
   | "sval" -> cmd_sval s b
+  | "c15" -> c15 s b
+  | "bcval" -> cmd_bcval s b
   | "c20" -> c20 s b
   | "c04" -> c04 s b
   | "c01" -> c01 s b
